@@ -305,6 +305,12 @@ def c08_skip(line, impl, ref):
     """outside the statement: the expression budget was hit (the two sides count differently), a
     parse that does not return, or a rule that is not of the form A <- A a.. / b.. (the specification diverges)"""
     hit = lambda o: o.get("out") in corr.NONTERM or o.get("out") is None or MAXEXPR_MSG.encode().hex() in (o.get("errs") or "")
+    if ref.get("lrform") == "0":
+        return True      # a left-recursive rule that is not of the stated form A <- A a.. / b..
+    if "(stc " in line and (corr.case_opts(line)["memo"] or corr.case_id(line).endswith("~M")):
+        # Memoize(true) together with state-change blocks: a memo hit cannot replay a state change (the reason C06
+        # excludes state blocks); neither the Memoize case nor its Memoize(false) twin is compared here
+        return True
     if corr.case_opts(line)["maxexpr"] not in (0, 3000):
         return True      # the generator's mark of a grammar that is not well-formed (other kinds of cycles): run under a small budget
     return hit(impl) or hit(ref)
@@ -428,8 +434,10 @@ def c06(ctx, rep):
     # grammars that are not well-formed run under an expression budget (the generator's watchdog): budgets are
     # C16's business and Memoize changes how they are counted, so those cases are outside this property
     nobudget = lambda l: corr.case_opts(l)["maxexpr"] == 0
+    # C06 speaks of success/failure, value and code-block errors: the text of the final "no match found" report
+    # (farthest failure, C12) legitimately depends on which terminals were actually tried, and a memo hit tries none
     run_corr(ctx, rep, [("c06", 250, 5000)], fields=["out", "val", "errs", "cnt"],
-             ref_fields=["out", "val", "errs"], scope=nobudget, known_quirks=known_quirks_for("C06"),
+             ref_fields=["out", "val", "cberrs"], scope=nobudget, known_quirks=known_quirks_for("C06"),
              derive=c06_derive, oracle=lambda l, i, m: c06_oracle(l, i, m) if nobudget(l) else None)
     # every option set against the default options, on the real parsers
     pairs = 0
@@ -453,7 +461,7 @@ def c06(ctx, rep):
         if a.get("out") in corr.NONTERM or b.get("out") in corr.NONTERM:
             continue
         pairs += 1
-        if not same_on(["out", "val", "errs"], a, b):
+        if not same_on(["out", "val", "cberrs"], a, b):
             # differences already attributed to the memo-label finding through the specification are not repeated
             if cid in getattr(rep, "attributed_cases", set()):
                 continue
